@@ -28,3 +28,28 @@ pub open spec fn cp_response_ok<G, const N: usize>(p: CommitmentProof<G, N>, b: 
     &&& p.blinding_factor_response_scalar == resp(c, b.message_blinding_factor.0, b.blinding_factor_commitment_scalar)
     &&& forall|i: int| 0 <= i < N ==> #[trigger] (*p.message_response_scalars)@[i] == resp(c, (*b.msg.0)@[i], (*b.message_commitment_scalars)@[i])
 }
+
+/// C14: the commitment scalar of every slot the caller left open (None) is a draw of its own, made during the call:
+/// `idx[i]` is its position in the generator's draw log, positions of different open slots differ
+pub open spec fn fresh_slots(cs: Seq<Scalar>, given: Seq<Option<Scalar>>, lo: Seq<Draw>, hi: Seq<Draw>, idx: Seq<int>) -> bool {
+    &&& idx.len() == cs.len()
+    &&& given.len() == cs.len()
+    &&& forall|i: int| 0 <= i < cs.len() && given[i] is None ==> lo.len() <= #[trigger] idx[i] < hi.len() && hi[idx[i]] == Draw::S(cs[i])
+    &&& forall|i: int, j: int| 0 <= i < j < cs.len() && given[i] is None && given[j] is None ==> #[trigger] idx[i] != #[trigger] idx[j]
+}
+
+pub open spec fn cpb_fresh<G, const N: usize>(b: CommitmentProofBuilder<G, N>, given: Seq<Option<Scalar>>, lo: Seq<Draw>, hi: Seq<Draw>) -> bool
+    where G: Group<Scalar = Scalar>
+{
+    exists|idx: Seq<int>| #[trigger] fresh_slots((*b.message_commitment_scalars)@, given, lo, hi, idx)
+}
+
+/// freshness survives later draws (the log only grows) and an earlier starting point
+pub proof fn lemma_fresh_widen(cs: Seq<Scalar>, given: Seq<Option<Scalar>>, lo: Seq<Draw>, hi: Seq<Draw>, idx: Seq<int>, lo2: Seq<Draw>, hi2: Seq<Draw>)
+    requires fresh_slots(cs, given, lo, hi, idx), lo2.len() <= lo.len(), log_prefix(hi, hi2),
+    ensures fresh_slots(cs, given, lo2, hi2, idx),
+{
+    assert forall|i: int| 0 <= i < cs.len() && given[i] is None implies lo2.len() <= #[trigger] idx[i] < hi2.len() && hi2[idx[i]] == Draw::S(cs[i]) by {
+        assert(hi2.subrange(0, hi.len() as int)[idx[i]] == hi2[idx[i]]);
+    }
+}
